@@ -122,7 +122,8 @@ func cleanupPods(client client.Client, logger logr.Logger, status *datadoghqv1al
 		conditionStatus = corev1.ConditionFalse
 	}
 	if len(pods) != 0 {
-		conditions.UpdateExtendedDaemonSetReplicaSetStatusCondition(status, now, datadoghqv1alpha1.ConditionTypePodsCleanupDone, conditionStatus, "", "", false, false)
+		// record a failed clean-up (status False) even when the condition does not exist yet
+		conditions.UpdateExtendedDaemonSetReplicaSetStatusCondition(status, now, datadoghqv1alpha1.ConditionTypePodsCleanupDone, conditionStatus, "", "", true, false)
 	}
 
 	return utilserrors.NewAggregate(errs)
